@@ -112,6 +112,7 @@ func (w *World) exprRoot(fi *FuncInfo, fd *funcDefs, e ast.Expr, depth int) stri
 }
 
 func checkC18(c *Ctx, r *Report) {
+	defer func() { ruleRegexInventory(c, r, "C18.b", "core/annotations", "core/validators") }()
 	w := c.W
 	r.NotDecided = append(r.NotDecided, "that a range lies inside the file and inside the comment/declaration it concerns, that start <= end, and that the covered text equals the annotation value (first-occurrence search by strings.Index)", "that code and severity are those documented for each rule (C10 checks the severity tables)", "multibyte column arithmetic")
 
